@@ -149,6 +149,7 @@ func (n *c13node) writeFlow(rep *vh.Report, r *vh.RNG, fam uint64, from, to int,
 		case <-done:
 		case <-time.After(3 * time.Second):
 			rep.Violation("what=isolation:blocked ep=custom", "a Write* call did not return within 3 s while another channel was stalled", map[string]interface{}{"item": i})
+			atomic.StoreInt32(&writeStuck, 1)
 			return false
 		}
 		submitted++
